@@ -15,8 +15,8 @@ FUNCTIONS = ["peltool.main", "peltool.processId", "peltool.parsePelFromPLID", "p
              "PrivateHeader.toJSON (id formatting)"]
 HARNESSES = [
     {"fn": "h_plid", "cases": ["", "0x", "0X"], "timeout": {"quick": 90, "thorough": 300}},
-    {"fn": "h_bmc", "cases": ["%s:d%d" % (o, d) for o in ("first", "second") for d in range(1, 11)],
-     "quick_cases": ["first:d1", "second:d1", "first:d10", "second:d4"], "timeout": {"quick": 90, "thorough": 300}},
+    {"fn": "h_bmc", "cases": ["%s:d%d" % (o, d) for o in ("first", "second", "junkfirst") for d in range(1, 11)],
+     "quick_cases": ["first:d1", "second:d1", "first:d10", "junkfirst:d4"], "timeout": {"quick": 90, "thorough": 300}},
     {"fn": "h_id", "cases": ["", "0x"], "timeout": {"quick": 90, "thorough": 300}},
     {"fn": "h_src", "cases": ["q2", "q3", "q0:long"], "quick_cases": ["q2"], "timeout": {"quick": 90, "thorough": 300}},
     {"fn": "h_src_exclude", "cases": ["c10"], "timeout": {"quick": 90, "thorough": 300}},
@@ -100,6 +100,8 @@ def bmc_body():
     files = [("a_50000001", A), ("b_50000002", B)]
     if order == "second":
         files.reverse()
+    elif order == "junkfirst":        # other files in the directory (e.g. the .json files -j writes there) come first
+        files = [("a_50000001.50000001.json", b'{\n    "Private Header": {}\n}'), ("notes", b"")] + files
     w = World(files=files)
     ns = Namespace(**dict(ARG_DEFAULTS, path="/pels", skip_plugins=True, bmcID=str(q)))
     try:
@@ -152,7 +154,7 @@ def h_id() -> bool:
     return verdict(sym_all(conds), obs={"stdout": [str(o) for o in w.stdout()]})
 
 
-ALPH = "BD8C1 x"
+ALPH = "BD8d1 x"
 
 
 def h_src() -> bool:
